@@ -24,7 +24,10 @@ func init() {
 	opaqueErrT = named
 }
 
-func opaqueErr() Val { return IfaceVal{t: opaqueErrT, v: StructVal{}} }
+// opaque errors are distinct objects (pointer identity)
+func opaqueErrNamed(st *State, what string) Val {
+	return IfaceVal{t: opaqueErrT, v: PtrVal{obj: st.alloc(OpaqueVal{what})}}
+}
 
 // ifaceModel handles invokes on model-typed dynamic values.
 func (e *Engine) ifaceModel(recv IfaceVal, method string) interceptFn {
@@ -129,7 +132,9 @@ func registerModels(e *Engine) {
 	for _, n := range []string{"log.New", "(*log.Logger).Println", "(*log.Logger).Printf", "(*log.Logger).Print", "log.Printf", "log.Println", "log.Print", "time.Now", "time.Since", "(*log.Logger).SetPrefix", "(*log.Logger).SetFlags", "os.Getenv"} {
 		ic[n] = zeroRes
 	}
-	errf := func(e *Engine, st *State, fr *Frame, in ssa.CallInstruction, a []Val) Val { return opaqueErr() }
+	errf := func(e *Engine, st *State, fr *Frame, in ssa.CallInstruction, a []Val) Val {
+		return opaqueErrNamed(st, "error")
+	}
 	for _, n := range []string{"github.com/pkg/errors.Errorf", "github.com/pkg/errors.New", "fmt.Errorf", "errors.New"} {
 		ic[n] = errf
 	}
